@@ -50,6 +50,10 @@ const (
 	cSlow          // receives one value at a time when told, sometimes gives up waiting
 	cLate          // like cFast but starts after half of the calls
 	cOnce          // waits for the first update, receives it, then stays busy until Close's send
+	// receives the update of the LAST call, stays busy; after Close() has started (and is blocked in its send)
+	// it calls pw.Size() from its own goroutine and only then receives. Race-free on the unchanged code: the
+	// receive of the last update synchronises with the writer, which performs no write before Close's send.
+	cSizeAtClose
 )
 
 var errScripted = errors.New("scripted failure")
@@ -113,15 +117,18 @@ func (w stringW) Write(p []byte) (int, error)       { return w.u.do(len(p), fals
 func (w stringW) WriteString(s string) (int, error) { return w.u.do(len(s), true) }
 
 type consumer struct {
-	mu     sync.Mutex
-	vals   []int
-	closed bool
-	inRecv atomic.Int32  // cSlow: 1 while a token's receive is outstanding
-	tok    chan struct{} // cSlow: permission for one receive
-	leave  chan struct{} // cSlow: abandon the current receive
-	drain  chan struct{} // closed: switch to free-running receive loop
-	quit   chan struct{} // closed: stop whatever you do
-	done   chan struct{}
+	mu                  sync.Mutex
+	vals                []int
+	closed              bool
+	inRecv              atomic.Int32  // cSlow: 1 while a token's receive is outstanding
+	tok                 chan struct{} // cSlow: permission for one receive
+	leave               chan struct{} // cSlow: abandon the current receive
+	drain               chan struct{} // closed: switch to free-running receive loop
+	quit                chan struct{} // closed: stop whatever you do
+	done                chan struct{}
+	sizeq               chan struct{} // cSizeAtClose: call Size(), then receive until closed
+	sizeFn              func() int
+	sizeSeen, sizeAsked int
 }
 
 func (c *consumer) got(v int) {
@@ -180,6 +187,11 @@ func (c *consumer) stepwise(ch chan int) {
 		case <-c.drain:
 			c.loop(ch)
 			return
+		case <-c.sizeq:
+			c.sizeSeen = c.sizeFn()
+			c.sizeAsked = 1
+			c.loop(ch)
+			return
 		case <-c.quit:
 			return
 		}
@@ -220,7 +232,7 @@ func oneRun(wk, ck int, script []opSpec, plan uint64) result {
 	ch := pw.Status()
 	res := result{sizes: make([]int, 0, len(script))}
 	c := &consumer{tok: make(chan struct{}), leave: make(chan struct{}), drain: make(chan struct{}),
-		quit: make(chan struct{}), done: make(chan struct{})}
+		quit: make(chan struct{}), done: make(chan struct{}), sizeq: make(chan struct{}), sizeFn: pw.Size}
 	started := false
 	start := func(stepwise bool) {
 		started = true
@@ -235,6 +247,7 @@ func oneRun(wk, ck int, script []opSpec, plan uint64) result {
 	}
 	wdone := make(chan int)
 	closeGo := make(chan struct{})
+	closing := make(chan struct{})
 	cdone := make(chan struct{})
 	wexit := make(chan struct{})
 	sizes := make([]int, len(script))
@@ -267,6 +280,7 @@ func oneRun(wk, ck int, script []opSpec, plan uint64) result {
 			}
 		}
 		<-closeGo
+		close(closing)
 		pw.Close()
 		close(cdone)
 	}()
@@ -309,7 +323,7 @@ func oneRun(wk, ck int, script []opSpec, plan uint64) result {
 	switch ck {
 	case cFast:
 		start(false)
-	case cSlow, cOnce:
+	case cSlow, cOnce, cSizeAtClose:
 		start(true)
 	}
 	if len(script) == 0 || ck != cOnce {
@@ -324,6 +338,17 @@ func oneRun(wk, ck int, script []opSpec, plan uint64) result {
 			}
 			yield(5)
 			close(startW)
+		}
+		if ck == cSizeAtClose && i == len(script)-1 {
+			// the consumer enters its receive before the last call is released
+			select {
+			case c.tok <- struct{}{}:
+				for c.inRecv.Load() == 0 {
+					runtime.Gosched()
+				}
+				yield(5)
+			case <-time.After(blockBound):
+			}
 		}
 		if ck == cLate && !started && i >= (len(script)+1)/2 {
 			start(false)
@@ -356,7 +381,7 @@ func oneRun(wk, ck int, script []opSpec, plan uint64) result {
 				return res
 			}
 		}
-		if (plan>>(16+uint(i)%16))&1 == 1 || (ck == cOnce && i == 0) {
+		if (plan>>(16+uint(i)%16))&1 == 1 || (ck == cOnce && i == 0) || (ck == cSizeAtClose && i == len(script)-1) {
 			yield(3) // give the consumer a chance to block in its receive
 		}
 		t0 := time.Now()
@@ -396,10 +421,26 @@ func oneRun(wk, ck int, script []opSpec, plan uint64) result {
 	}
 	closeGoClosed = true
 	close(closeGo)
+	if ck == cSizeAtClose {
+		// Close() has been entered; give it time to block in its send, then let the consumer poll Size()
+		select {
+		case <-closing:
+		case <-time.After(blockBound):
+		}
+		time.Sleep(300 * time.Microsecond)
+		select {
+		case c.sizeq <- struct{}{}:
+		case <-time.After(blockBound):
+		}
+	}
 	select {
 	case <-cdone:
 	case <-time.After(2 * blockBound):
 		res.viol = "Close-blocked-with-a-receiver-waiting"
+		if ck == cSizeAtClose {
+			res.viol = "close-deadlock-consumer-called-Size-while-Close-was-pending"
+		}
+		res.sizes = sizes
 		abort()
 		res.recv = c.vals
 		return res
@@ -414,6 +455,9 @@ func oneRun(wk, ck int, script []opSpec, plan uint64) result {
 	}
 	res.recv = c.vals
 	res.closed = c.closed
+	if c.sizeAsked == 1 && len(sizes) > 0 && c.sizeSeen != sizes[len(sizes)-1] {
+		res.viol = fmt.Sprintf("Size-polled-by-the-consumer-during-Close-is-%d-not-%d", c.sizeSeen, sizes[len(sizes)-1])
+	}
 	res.viaStr, res.viaWr = u.viaStr, u.viaWr
 	res.retMismatch = retBad + u.badLen
 	res.skipped = skipped
@@ -480,6 +524,57 @@ func parseCase(line string) (wk, ck int, script []opSpec, ok bool) {
 	return wk, ck, script, true
 }
 
+// veryLate: three writes with nobody receiving, then Close(); the consumer arrives only `delay` after Close()
+// was called. It must still receive the final total and then see the channel closed: Close waits.
+func veryLate(delay time.Duration) ([]opSpec, result) {
+	sc := []opSpec{{false, 3, 3, false}, {true, 4, 2, true}, {false, 5, 5, false}}
+	u := &under{script: sc, reached: make([]bool, len(sc)), aborted: make(chan struct{})}
+	pw := ioutil.NewProgressWriter(plainW{u})
+	res := result{sizes: make([]int, len(sc)), skipped: make([]bool, len(sc))}
+	closing, cdone := make(chan struct{}), make(chan struct{})
+	go func() {
+		for i, op := range sc {
+			u.cur = i
+			if op.str {
+				pw.WriteString(strings.Repeat("s", op.n))
+			} else {
+				pw.Write(make([]byte, op.n))
+			}
+			res.sizes[i] = pw.Size()
+		}
+		close(closing)
+		pw.Close()
+		close(cdone)
+	}()
+	<-closing
+	time.Sleep(delay)
+	ch := pw.Status()
+	deadline := time.After(5 * time.Second)
+recv:
+	for {
+		select {
+		case v, ok := <-ch:
+			if !ok {
+				res.closed = true
+				break recv
+			}
+			res.recv = append(res.recv, v)
+		case <-deadline:
+			break recv
+		}
+	}
+	select {
+	case <-cdone:
+	case <-time.After(5 * time.Second):
+		res.viol = "Close-blocked-with-a-late-receiver"
+		go func() {
+			for range ch {
+			}
+		}()
+	}
+	return sc, res
+}
+
 func median(d []time.Duration) time.Duration {
 	s := append([]time.Duration(nil), d...)
 	sort.Slice(s, func(i, j int) bool { return s[i] < s[j] })
@@ -488,6 +583,22 @@ func median(d []time.Duration) time.Duration {
 
 func run(e *hk.Env) error {
 	t0run := time.Now()
+	// very late consumers run beside everything else: started first, joined last
+	lateDelays := []time.Duration{1500 * time.Millisecond}
+	if e.Thorough() {
+		lateDelays = append(lateDelays, 6*time.Second)
+	}
+	type lateRes struct {
+		sc  []opSpec
+		res result
+	}
+	lateCh := make(chan lateRes, len(lateDelays))
+	for _, d := range lateDelays {
+		go func(d time.Duration) {
+			sc, res := veryLate(d)
+			lateCh <- lateRes{sc, res}
+		}(d)
+	}
 	// three goroutines per run: more Ps only make the scheduler spin on a busy machine
 	if os.Getenv("GOMAXPROCS") == "" && runtime.NumCPU() > 4 {
 		runtime.GOMAXPROCS(4)
@@ -592,7 +703,17 @@ func run(e *hk.Env) error {
 	r := e.Rng.Fork()
 	for _, sc := range scripts {
 		for wk := 0; wk < 4 && viol < maxViol; wk++ {
-			for ck := 0; ck < 5 && viol < maxViol; ck++ {
+			for ck := 0; ck < 6 && viol < maxViol; ck++ {
+				if ck == cSizeAtClose {
+					if len(sc) >= 1 && (wk == wPlainGated || wk == wStringGated) {
+						res := oneRun(wk, ck, sc, r.U64())
+						emit(wk, ck, sc, res)
+						if res.viol == "" && len(res.recv) >= 2 {
+							stats["size_polled_during_pending_Close_achieved"]++
+						}
+					}
+					continue
+				}
 				if ck != cOnce {
 					emit(wk, ck, sc, oneRun(wk, ck, sc, r.U64()))
 					continue
@@ -678,6 +799,11 @@ func run(e *hk.Env) error {
 			e.Case("VIOL", "write-stalls-when-nobody-receives", fmt.Sprintf("median_latency_us_consumer_absent=%d", medA.Microseconds()),
 				fmt.Sprintf("consumer_waiting=%d", medW.Microseconds()), "E", "0", "0", "1", "0", "1", "1", "0", "-1", "0", "0")
 		}
+	}
+	for range lateDelays {
+		lr := <-lateCh
+		emit(wPlainFree, cAbsent, lr.sc, lr.res)
+		stats["very_late_consumer_runs"]++
 	}
 	budget := 90 * time.Second
 	if e.Thorough() {
